@@ -245,6 +245,16 @@ def run(chk):
     cases = [gen_case(rnd, big=(chk.tier == "thorough")) for _ in range(n)]
     diverged += process(chk, cases, "gen")
     chk.coverage["traces_validated_against_impl"] = chk.counters.get("model_agree", 0)
+    # 2b. wait() with waiters cancelled while they sleep (virtual-time loop): the rate bound on what is let through
+    rnd3 = common.rng_for(chk.seed, "C20-cancel")
+    for _ in range(common.tier_n(chk.tier, 40, 600)):
+        sc = gen_cancel_scenario(rnd3)
+        sent = run_cancel_scenario(sc)
+        chk.count("cancel_scenarios")
+        chk.count("cancelled_waiters", len(sc["cancels"]))
+        al = monitor_sends(sc, sent)
+        if al and not any(v[0] == "monitor:" + al[0][0] for v in chk.violations):
+            chk.violation("monitor:" + al[0][0], al[0][1], {"kind": "monitor", "cancel_scenario": sc, "sent": sent})
     # 3. classification of divergences: monitors already ran on every case; if none fired, the property is no
     #    longer shown: search harder, then report no-failing-input-found
     if diverged and not chk.violations:
@@ -272,8 +282,76 @@ def run(chk):
                       no_failing_input=True)
 
 
+def run_cancel_scenario(sc):
+    """wait() under a virtual-time loop with waiters cancelled while they sleep.  Returns the instants at which
+    requests were actually let through (floats: the loop's clock)."""
+    from basana.core import token_bucket
+    from harness import vloop
+
+    async def main(loop):
+        saved = token_bucket.time
+        token_bucket.time = types.SimpleNamespace(time=loop.time)
+        sent = []
+        try:
+            tb = token_bucket.TokenBucketLimiter(sc["tp"], sc["pd"], sc["ini"])
+
+            async def waiter(at):
+                await asyncio.sleep(at - loop.time())
+                await tb.wait()
+                sent.append(loop.time())
+            tasks = [asyncio.ensure_future(waiter(a)) for a in sc["arrivals"]]
+
+            async def canceller():
+                for at, idx in sc["cancels"]:
+                    await asyncio.sleep(max(0, at - loop.time()))
+                    tasks[idx].cancel()
+            c = asyncio.ensure_future(canceller())
+            await asyncio.gather(c, *tasks, return_exceptions=True)
+        finally:
+            token_bucket.time = saved
+        return sorted(sent)
+    return vloop.run_virtual(main)
+
+
+def gen_cancel_scenario(rnd):
+    rate = rnd.choice([1, 2, 4])
+    n1 = rnd.randint(6, 24)
+    cancel_at = rnd.choice([0.5, 1.25, 2.5])
+    n_cancel = rnd.randint(1, n1 // 2)
+    n2 = rnd.randint(4, 16)
+    t2 = cancel_at + rnd.choice([0.0, 0.25, 1.0])
+    arrivals = [0.0] * n1 + [t2] * n2
+    cancels = [(cancel_at, i) for i in rnd.sample(range(n1), n_cancel)]
+    return {"tp": rate, "pd": 1, "ini": rnd.choice([0, 0, 1, rate]), "arrivals": arrivals, "cancels": sorted(cancels)}
+
+
+def monitor_sends(sc, sent):
+    """the rate bound of the property on the instants at which requests were let through"""
+    rate = sc["tp"] / sc["pd"]
+    cap = max(sc["tp"], sc["ini"])
+    n = len(sent)
+    for i in range(n):
+        for j in range(i, n):
+            L = sent[j] - sent[i]
+            cnt = j - i + 1
+            if cnt > cap + rate * L + 1 + 1e-9:
+                return [("rate-bound-after-cancelled-waits",
+                         f"{cnt} requests let through within {L:.3f}s > capacity {cap} + rate {rate}*L + 1 "
+                         f"(some waiters were cancelled while sleeping)")]
+    return []
+
+
 def replay(chk, path):
     d = json.load(open(path))
+    if "cancel_scenario" in d:
+        sc = d["cancel_scenario"]
+        sent = run_cancel_scenario(sc)
+        print("sent at:", sent)
+        for fp, msg in monitor_sends(sc, sent):
+            chk.violation("monitor:" + fp, msg, {"kind": "monitor", "cancel_scenario": sc, "sent": sent})
+        chk.note_case("replay")
+        chk.note_case("replay2")
+        return chk.finish(TRUSTED_EXTRA)
     case = case_from_json(d["case"])
     waits = run_impl(case["tp"], case["pd"], case["ini"], case["t0"], case["arr"])
     print("impl waits:", [str(F(w)) for w in waits])
